@@ -524,7 +524,7 @@ func run(c *vf.Ctx) {
 	wg.Wait()
 
 	c.Require("evaluations", c.Pick(2000, 100000))
-	c.Require("gated_windows_entered", c.Pick(250, 5000))
+	c.Require("gated_windows_entered", c.Pick(250, 3000))
 	c.Require("allbusy_at_shutdown_workers_gt_2ncpu", c.Pick(30, 100))
 	c.Require("allbusy_at_shutdown_workers_gt_2ncpu_tasks_call_pool", c.Pick(20, 80))
 	c.Require("allbusy_at_shutdown:2ncpu", 10)
